@@ -145,11 +145,24 @@ def reachSets (sigma : List Nat) : (fuel : Nat) → (todo : List (List RE)) → 
       let next := (sigma.map (RE.pdSet rs ·)).filter (!·.isEmpty)
       reachSets sigma fuel (todo ++ next) (rs :: seen)
 
-/-- a *required position only non-generatable nodes can fill*: some reachable state is not a valid end
-    and every letter it can continue with is non-generatable -/
+/-- the reachable states from which a valid end can be reached through generatable letters only
+    (backward closure from the nullable states; `fuel` rounds, one per reachable state suffices) -/
+def liveSets (sigma : List Nat) (generatable : Nat → Bool) (all : List (List RE)) : Nat → List (List RE) → List (List RE)
+  | 0, live => live
+  | fuel + 1, live =>
+    let more := all.filter (fun rs =>
+      !live.any (RE.sameSet · rs) &&
+      sigma.any (fun a => generatable a && live.any (RE.sameSet · (RE.pdSet rs a))))
+    if more.isEmpty then live else liveSets sigma generatable all fuel (live ++ more)
+
+/-- a *required position only non-generatable nodes can fill*: from some reachable state no valid end can
+    be reached by generatable nodes alone — every way to complete the content from there passes through a
+    non-generatable node.  (The reading is global on purpose: in `(a a)* a img` every state *offers* the
+    generatable `a`, yet no match can end without the `img`.) -/
 def hasDeadEnd (sigma : List Nat) (generatable : Nat → Bool) (r : RE) : Bool :=
-  (reachSets sigma 4000 [[r]] []).any (fun rs =>
-    !RE.nullableSet rs && sigma.all (fun a => (RE.pdSet rs a).isEmpty || !generatable a))
+  let all := reachSets sigma 4000 [[r]] []
+  let live := liveSets sigma generatable all (all.length + 1) (all.filter RE.nullableSet)
+  all.any (fun rs => !live.any (RE.sameSet · rs))
 
 /-! ### the content-expression grammar -/
 
